@@ -227,6 +227,12 @@ int main(int argc, char **argv)
 				os << " dec=" << dump_msg(d.get());
 				os << " re=" << enc(d.get());
 			}
+			else if (w.size() == 3 && w[0] == "decn")		// decode only (C03: the result is not re-encoded)
+			{
+				std::string raw; unhex(w[2], raw);
+				std::unique_ptr<Message> d(Message::factory(C(), raw, false, w[1] == "p"));
+				os << "ok " << dump_msg(d.get());
+			}
 			else if (w.size() == 3 && w[0] == "dec")
 			{
 				std::string raw; unhex(w[2], raw);
